@@ -271,7 +271,7 @@ def run_c20(case):
                            semaphore_name=case['name'], semaphore_lax=case['lax'], semaphore_scope=scope,
                            semaphore_timeout=case['semto'])
                 async def work(owner, c, spec):
-                    log.append(('bodyStart', KEY[c], c))
+                    log.append(('bodyStart', KEY[c], c, asyncio.get_event_loop().time()))
                     try:
                         await asyncio.sleep(spec['dur'])
                         if spec['fail']:
@@ -289,7 +289,7 @@ def run_c20(case):
                 owner = owners[spec['owner']]
                 key = hlp._get_semaphore_key('work', case['name'], case['scope'], (owner, c, spec))
                 KEY[c] = key
-                log.append(('call', key, c, int(case['lax'])))
+                log.append(('call', key, c, int(case['lax']), asyncio.get_event_loop().time()))
                 res = 'ok'
                 try:
                     await work(owner, c, spec)
@@ -301,7 +301,7 @@ def run_c20(case):
                     res = 'cancelled'
                 except BaseException as e:  # noqa: BLE001
                     res = 'error:' + type(e).__name__
-                log.append(('end', key, c, res, int(c in REL)))
+                log.append(('end', key, c, res, int(c in REL), asyncio.get_event_loop().time()))
                 return res
 
             async def main():
@@ -499,6 +499,24 @@ def decide(prop, tier, seed, gate, my_thms, known, t0, replay):
         for (i, real, err), case in zip(res, cases):
             if err or not real:
                 continue
+            # an acquisition timeout is the expiry of the documented waiting time (semaphore_timeout; by default the time the
+            # other slots' holders can take, at least one attempt timeout): a caller that runs without a slot (lax) or is
+            # refused with TimeoutError has waited that long, counted from its call
+            t_acq = (case['semto'] if case['semto'] else 0.01) if case['semto'] is not None else max(case['timeout'], case['timeout'] * (case['L'] - 1))
+            t_call, waiting = {}, set()
+            for rec in real['log']:
+                if rec[0] == 'call':
+                    t_call[rec[2]] = rec[4]
+                    waiting.add(rec[2])
+                elif rec[0] == 'acquired':
+                    waiting.discard(rec[2])
+                elif rec[0] in ('bodyStart', 'end') and rec[2] in waiting:
+                    waiting.discard(rec[2])
+                    gave_up = rec[0] == 'bodyStart' or rec[3] == 'semtimeout'
+                    waited = rec[-1] - t_call[rec[2]]
+                    if gave_up and waited < t_acq - 1e-9:
+                        own.setdefault(i, []).append(f'semaphore {rec[1]}: caller {rec[2]} ' + ('ran without a slot' if rec[0] == 'bodyStart' else 'was refused with TimeoutError') +
+                                                     f' after waiting {waited} s for one; the acquisition timeout is {t_acq} s')
             for rec in real['log']:
                 if rec[0] == 'phaseEnd':
                     for key, (val, nw) in rec[1].items():
